@@ -11,7 +11,7 @@ MANIFEST = dict(
          "only the root (non-recursive) (C02_construct_cover, C02_flat_watches); from a synchronised state one operation + a full "
          "read re-establishes the cover invariant for touch/write/chmod/unlink, mkdir, rmdir, file renames (inside/in/out/replacing), "
          "directory renames inside the tree incl. all sub-directories via the re-key loop and C14, a directory moved in, a directory "
-         "over an empty directory, non-recursive/outside directory renames (C02_cover_step, C02_rekey_loop). REPAIRED READER "
+         "over an empty directory (from inside or from outside the tree: C02_step_rename_dir_in_over), non-recursive/outside directory renames (C02_cover_step, C02_rekey_loop). REPAIRED READER "
          "(c_fix_moveout, F10 family fixed): a directory moved OUT leaves a pending candidate (C02_step_rename_dir_out, "
          "C02_out_pending); the next operation's first record settles it - the departed sub-tree's bookkeeping is forgotten and its "
          "kernel watches removed - and the state is synchronised again up to the removed watches' IN_IGNORED records "
@@ -27,7 +27,7 @@ MANIFEST = dict(
          "C02_f10b_pinned_stale). Extra hypotheses of the move-out theorems: full event mask; the operation right after a directory "
          "move-out is a covered operation in a directory of the tree (so it produces a record) that notifies no directory at or "
          "below the departed directory's new place (in particular not a second move-out). Stated, not proved in general "
-         "(C02_step_full): those excluded successors, a directory moved in over an empty directory, operations on the root, bursts (several operations before a read) and reads that straddle two operations (carried by the sampled "
+         "(C02_step_full): those excluded successors, operations on the root, bursts (several operations before a read) and reads that straddle two operations (carried by the sampled "
          "correspondence). "
          "Pipeline model in lock-step against the real observer on the real kernel (see C01); after every history a probe "
          "file is created in EVERY directory of the final tree and must be reported under its real path (recursive) / only "
